@@ -93,7 +93,8 @@ structure ListO where
   items : List (Nat × Blk)        -- (data, node)
   deriving Repr
 
-def ListO.foot (l : ListO) : List R := l.items.map fun x => .blk x.2
+def ListO.blocks (l : ListO) : List Blk := l.items.map (·.2)
+def ListO.foot (l : ListO) : List R := l.blocks.map .blk
 
 /-- `p_list_append` / `p_list_prepend`: the old list is returned when the node cannot be allocated -/
 def listAdd (l : ListO) (x : Nat) (pre : Bool) : ResM (Char × ListO) := do
@@ -105,14 +106,16 @@ def listRemove (l : ListO) (x : Nat) : ResM ListO :=
   | none => pure l
   | some it => do freeB it.2; pure ⟨l.items.erase it⟩
 
-def listFree (l : ListO) : ResM Unit := freeAll (l.items.map (·.2))
+def listFree (l : ListO) : ResM Unit := freeAll l.blocks
 
 /-- a list of string copies (`p_ini_file_sections`, `_keys`, `_parameter_list`): (copy, node) -/
 structure SListO where
   items : List (Option Blk × Blk)
   deriving Repr
 
-def SListO.foot (l : SListO) : List R := l.items.flatMap fun x => ob x.1 ++ [.blk x.2]
+/-- in the order of release: `p_list_foreach (l, p_free)`, then `p_list_free (l)` -/
+def SListO.blocks (l : SListO) : List Blk := l.items.filterMap (·.1) ++ l.items.map (·.2)
+def SListO.foot (l : SListO) : List R := l.blocks.map .blk
 
 /-- the repaired `pp_ini_file_list_add_copy`: copy, then the list node; the copy is released when the
     node cannot be allocated -/
@@ -133,9 +136,7 @@ def strlistCls (items : List (Option Blk × Blk)) (want : Nat) : Char :=
   else if items.length = want ∧ items.all (·.1.isSome) then 'S' else 'D'
 
 /-- `p_list_foreach (l, p_free)` then `p_list_free (l)` -/
-def slistFree (l : SListO) : ResM Unit := do
-  freeAll (l.items.filterMap (·.1))
-  freeAll (l.items.map (·.2))
+def slistFree (l : SListO) : ResM Unit := freeAll l.blocks
 
 /-! ## trees -/
 structure TreeO where
@@ -143,7 +144,8 @@ structure TreeO where
   nodes : List (Nat × Blk)        -- (key, node)
   deriving Repr
 
-def TreeO.foot (t : TreeO) : List R := .blk t.self :: t.nodes.map fun x => .blk x.2
+def TreeO.blocks (t : TreeO) : List Blk := t.nodes.map (·.2) ++ [t.self]
+def TreeO.foot (t : TreeO) : List R := t.blocks.map .blk
 
 def treeNew : ResM (Option TreeO) := do
   let some a ← malloc | return none
@@ -167,9 +169,7 @@ def treeClear (t : TreeO) : ResM TreeO := do
   freeAll (t.nodes.map (·.2))
   pure { t with nodes := [] }
 
-def treeFree (t : TreeO) : ResM Unit := do
-  freeAll (t.nodes.map (·.2))
-  freeB t.self
+def treeFree (t : TreeO) : ResM Unit := freeAll t.blocks
 
 /-! ## hash table -/
 structure HtO where
@@ -178,7 +178,8 @@ structure HtO where
   nodes : List (Nat × Nat × Blk)  -- (key, value, node), most recent first
   deriving Repr
 
-def HtO.foot (t : HtO) : List R := .blk t.self :: .blk t.tbl :: t.nodes.map fun x => .blk x.2.2
+def HtO.blocks (t : HtO) : List Blk := t.nodes.map (·.2.2) ++ [t.tbl, t.self]
+def HtO.foot (t : HtO) : List R := t.blocks.map .blk
 
 def htNew : ResM (Option HtO) := do
   let some a ← malloc | return none
@@ -218,10 +219,7 @@ def htList (t : HtO) (sel : List Nat) : ResM (Char × ListO) := do
   let l ← appendAll sel ⟨[]⟩
   return (if l.items.length = sel.length then 'S' else 'D', l)
 
-def htFree (t : HtO) : ResM Unit := do
-  freeAll (t.nodes.map (·.2.2))
-  freeB t.tbl
-  freeB t.self
+def htFree (t : HtO) : ResM Unit := freeAll t.blocks
 
 /-! ## INI files -/
 inductive Line
@@ -265,8 +263,11 @@ structure IniSec where
   params : List IniParam
   deriving Repr
 
-def IniParam.foot (p : IniParam) : List R := [.blk p.self, .blk p.name, .blk p.val, .blk p.node]
-def IniSec.foot (s : IniSec) : List R := .blk s.self :: .blk s.name :: (ob s.node ++ s.params.flatMap IniParam.foot)
+/-- what `pp_ini_file_section_free` releases, in its order: every parameter (name, value, structure), the
+    items of the key list, the section name, the section -/
+def IniSec.blocks (s : IniSec) : List Blk :=
+  (s.params.flatMap fun p => [p.name, p.val, p.self]) ++ s.params.map (·.node) ++ [s.name, s.self]
+def IniSec.foot (s : IniSec) : List R := (s.blocks ++ s.node.toList).map .blk
 
 structure IniO where
   self : Blk
@@ -276,7 +277,9 @@ structure IniO where
   secs : List IniSec
   deriving Repr
 
-def IniO.foot (o : IniO) : List R := .blk o.self :: .blk o.path :: o.secs.flatMap IniSec.foot
+/-- what `p_ini_file_free` releases, in its order -/
+def IniO.blocks (o : IniO) : List Blk := o.secs.flatMap IniSec.blocks ++ o.secs.filterMap (·.node) ++ [o.path, o.self]
+def IniO.foot (o : IniO) : List R := o.blocks.map .blk
 
 def iniNew (file : Nat) : ResM (Option IniO) := do
   let some a ← malloc | return none
@@ -296,11 +299,7 @@ def sectionNew (i : Nat) : ResM (Option IniSec) := do
   return some ⟨i, a, n, none, []⟩
 
 /-- `pp_ini_file_section_free` (the section's own list item is not part of it) -/
-def sectionFree (s : IniSec) : ResM Unit := do
-  freeAll (s.params.flatMap fun p => [p.name, p.val, p.self])
-  freeAll (s.params.map (·.node))
-  freeB s.name
-  freeB s.self
+def sectionFree (s : IniSec) : ResM Unit := freeAll s.blocks
 
 /-- a finished section is linked into `file->sections` (dropped when it has no keys, and — repaired —
     when the list item cannot be allocated) -/
@@ -441,11 +440,7 @@ def iniList (o : IniO) (sec key : Nat) : ResM (Char × SListO) := do
     return (strlistCls items want, ⟨items⟩)
   | none => return ('S', ⟨[]⟩)
 
-def iniFree (o : IniO) : ResM Unit := do
-  freeAll (o.secs.flatMap fun s => (s.params.flatMap fun p => [p.name, p.val, p.self]) ++ s.params.map (·.node) ++ [s.name, s.self])
-  freeAll (o.secs.filterMap (·.node))
-  freeB o.path
-  freeB o.self
+def iniFree (o : IniO) : ResM Unit := freeAll o.blocks
 
 /-! ## crypto hash, IPC key -/
 structure HashO where
@@ -739,47 +734,60 @@ structure ShmO where
 def ShmO.foot (s : ShmO) : List R := .blk s.self :: .blk s.key :: .map s.map s.mapLen :: s.lock.foot
 def ShmO.owned (s : ShmO) : List Name := (if s.created then [Name.shm s.id] else []) ++ s.lock.owned
 
+/-- `pp_shm_create_handle`, first part: `shm_open` (exclusive creation, else opening the existing object),
+    then `ftruncate` for a new object / `fstat` for an existing one.  Result: descriptor, "created here",
+    size of the segment. -/
+def shmOpen (id size : Nat) (e : EP) : ResM (Option (Nat × Bool × Nat) × EP) := do
+  if !(← sysOk "shm_open") then
+    let e' ← setErr e
+    return (none, e')
+  let ex ← nameTest (.shm id)
+  let created := ex.isNone
+  let segSize := match ex with | some sz => sz | none => size
+  if created then nameCreate (.shm id) size
+  let fd ← openFd
+  let ftruncOk ← if created then sysOk "ftruncate" else pure true
+  if !ftruncOk then
+    let e' ← setErr e
+    closeFd fd
+    nameUnlink (.shm id)
+    return (none, e')
+  return (some (fd, created, segSize), e)
+
+/-- second part: `mmap`, then the descriptor is closed -/
+def shmMap (id fd : Nat) (created : Bool) (segSize : Nat) (e : EP) : ResM (Option Nat × EP) := do
+  let mmapOk ← sysOk "mmap"
+  if !mmapOk || segSize = 0 then
+    let e' ← setErr e
+    closeFd fd
+    if created then nameUnlink (.shm id)
+    return (none, e')
+  let m ← mmap segSize
+  closeFd fd
+  return (some m, e)
+
 /-- `pp_shm_create_handle` and the tail of `p_shm_new`, once the structure `a` and the key exist.
     After a failure everything acquired so far is released (`pp_shm_clean_handle`), then `p_shm_free`
     releases the key and the structure. -/
 def shmAttach (a key : Blk) (id size : Nat) (e : EP) : ResM (Option ShmO × EP) := do
-  let fail (e : EP) : ResM (Option ShmO × EP) := do
-    freeB key
-    freeB a
-    return (none, e)
-  if !(← sysOk "shm_open") then
-    let e' ← setErr e
-    fail e'
-  else do
-    let ex ← nameTest (.shm id)
-    let created := ex.isNone
-    let segSize := match ex with | some sz => sz | none => size
-    if created then nameCreate (.shm id) size
-    let fd ← openFd
-    let ftruncOk ← if created then sysOk "ftruncate" else pure true
-    if !ftruncOk then
-      let e' ← setErr e
-      closeFd fd
-      nameUnlink (.shm id)
-      fail e'
-    else do
-      let mmapOk ← sysOk "mmap"
-      if !mmapOk || segSize = 0 then
-        let e' ← setErr e
-        closeFd fd
+  let (o, e1) ← shmOpen id size e
+  match o with
+  | none => do freeB key; freeB a; return (none, e1)
+  | some (fd, created, segSize) => do
+    let (m, e2) ← shmMap id fd created segSize e1
+    match m with
+    | none => do freeB key; freeB a; return (none, e2)
+    | some m => do
+      let (lock, e3) ← semNew (.shmLock id) created e2
+      match lock with
+      | none => do
+        munmap m segSize segSize
         if created then nameUnlink (.shm id)
-        fail e'
-      else do
-        let m ← mmap segSize
-        closeFd fd
-        let (lock, e') ← semNew (.shmLock id) created e
-        match lock with
-        | none => do
-          munmap m segSize segSize
-          if created then nameUnlink (.shm id)
-          fail e'
-        | some lock =>
-          return (some ⟨a, key, id, m, segSize, if segSize > size ∧ size ≠ 0 then size else segSize, created, lock⟩, e')
+        freeB key
+        freeB a
+        return (none, e3)
+      | some lock =>
+        return (some ⟨a, key, id, m, segSize, if segSize > size ∧ size ≠ 0 then size else segSize, created, lock⟩, e3)
 
 /-- `p_shm_new` -/
 def shmNew (id : Nat) (size : Nat) (e : EP) : ResM (Option ShmO × EP) := do
@@ -944,59 +952,62 @@ def tlsFree (t : TlsO) : ResM Unit := do
     freeB sl.blk
   freeB t.self
 
-/-- the library's own state: the TLS reference of `puthread.c`, its lazily created native slot (whose
-    value is the main thread's `PUThreadBase` once `p_uthread_current` made one), the thread-creation
-    spinlock -/
+/-- the library's own state: the TLS reference of `puthread.c` (a `PUThreadKey` like any other; the value the
+    main thread keeps in its slot is its `PUThreadBase`, made by `p_uthread_current`), and the
+    thread-creation spinlock -/
 structure LibO where
   inited : Bool := false
-  keyS : Option Blk := none
-  slot : Option Slot := none
+  tls : Option TlsO := none
   spin : Option Blk := none
   deriving Repr
 
-def LibO.foot (l : LibO) : List R := ob l.keyS ++ slotFoot l.slot ++ ob l.spin
+def optTls : Option TlsO → List R
+  | none => []
+  | some t => t.foot
 
+def LibO.foot (l : LibO) : List R := optTls l.tls ++ ob l.spin
+
+/-- `p_libsys_init` → `p_uthread_init`: both objects are created when they do not exist; nothing is checked -/
 def libInit (l : LibO) : ResM LibO := do
   if l.inited then return l
-  let k ← malloc
-  let s ← malloc
-  return { inited := true, keyS := k, slot := none, spin := s }
+  let t ← match l.tls with
+    | some t => pure (some t)
+    | none => tlsNew
+  let s ← match l.spin with
+    | some s => pure (some s)
+    | none => malloc
+  return { inited := true, tls := t, spin := s }
 
-/-- `p_libsys_shutdown` → `p_uthread_shutdown` (with the repaired `p_uthread_local_free`) -/
+/-- `p_libsys_shutdown` → `p_uthread_shutdown`: the main thread's object is dropped, then the (repaired)
+    `p_uthread_local_free` releases the native slot and the reference -/
 def libShutdown (l : LibO) : ResM LibO := do
   if !l.inited then return l
-  match l.keyS with
-  | some ks => do
-    let n1 ← getTlsKey l.slot
-    match n1 with
-    | none => pure ()
-    | some sl => do
-      free sl.value
-      keyDelete sl.key
-      freeB sl.blk
-    freeB ks
+  match l.tls with
+  | some t => do
+    let t' ← tlsGet t
+    tlsFree t'
   | none => pure ()
   free l.spin
   return {}
 
 /-- the repaired `p_uthread_current` on the main thread -/
 def curThread (l : LibO) : ResM (Char × LibO) := do
-  match l.keyS with
+  match l.tls with
   | none => do
     let some b ← malloc | return ('F', l)
     freeB b
     return ('F', l)
-  | some _ => do
-    let n1 ← getTlsKey l.slot
-    if (n1.bind (·.value)).isSome then return ('S', { l with slot := n1 })
-    let some b ← malloc | return ('F', { l with slot := n1 })
+  | some t => do
+    let n1 ← getTlsKey t.slot
+    if (n1.bind (·.value)).isSome then return ('S', { l with tls := some { t with slot := n1 } })
+    let some b ← malloc | return ('F', { l with tls := some { t with slot := n1 } })
     let n2 ← getTlsKey n1
     match n2 with
     | none => do
       let n3 ← getTlsKey n2
       freeB b
-      return ('F', { l with slot := n3 })
-    | some sl => return ('S', { l with slot := some { sl with value := some b } })
+      return ('F', { l with tls := some { t with slot := n3 } })
+    | some sl => return ('S', { l with tls := some { t with slot := some { sl with value := some b } } })
 
 structure ThreadO where
   self : Blk
@@ -1005,32 +1016,39 @@ structure ThreadO where
 
 def ThreadO.foot (t : ThreadO) : List R := .blk t.self :: ob t.name
 
+/-- `pp_uthread_proxy` in the new thread: its structure is stored in the library's TLS slot (the native key is
+    created when this is the first user), then it is checked that it is there -/
+def threadProxy (t : Option TlsO) : ResM (Option TlsO) :=
+  match t with
+  | none => pure none
+  | some t => do
+    let n1 ← getTlsKey t.slot
+    let n2 ← getTlsKey n1
+    pure (some { t with slot := n2 })
+
+/-- the thread body of the harness: a value is stored under a user key and destroyed when the thread exits
+    (or released by the body itself when it could not be stored) -/
+def threadBody (tls : Option TlsO) (body : Bool) : ResM (Option TlsO) :=
+  match tls, body with
+  | some t, true => do
+    let some v ← malloc | pure (some t)
+    let k1 ← getTlsKey t.slot
+    let k2 ← getTlsKey k1
+    freeB v
+    pure (some { t with slot := k2 })
+  | t, _ => pure t
+
 /-- `p_uthread_create` followed by the complete run of the thread (it is joined or waited for):
-    the creator allocates the structure and the name; the thread's proxy stores the structure in the
-    library's TLS slot (creating the native key when it is the first user) and checks that it is there;
-    the body (`body`) may store a value under a user key; at thread exit the value is destroyed. -/
+    the creator allocates the structure and the name, then the thread runs its proxy and its body. -/
 def threadRun (l : LibO) (tls : Option TlsO) (body : Bool) : ResM (Option ThreadO × LibO × Option TlsO) := do
   let some a ← malloc | return (none, l, tls)
   if !(← sysOk "pthread_create") then
     freeB a
     return (none, l, tls)
   let nm ← malloc
-  -- the thread: pp_uthread_proxy stores its structure and checks that it is stored
-  let n2 ← match l.keyS with
-    | none => pure l.slot
-    | some _ => do
-      let n1 ← getTlsKey l.slot
-      getTlsKey n1
-  -- the body
-  let tls' ← match tls, body with
-    | some t, true => do
-      let some v ← malloc | pure (some t)
-      let k1 ← getTlsKey t.slot
-      let k2 ← getTlsKey k1
-      freeB v           -- not stored: released by the body; stored: released by the key's destructor at exit
-      pure (some { t with slot := k2 })
-    | t, _ => pure t
-  return (some ⟨a, nm⟩, { l with slot := n2 }, tls')
+  let lt ← threadProxy l.tls
+  let tls' ← threadBody tls body
+  return (some ⟨a, nm⟩, { l with tls := lt }, tls')
 
 def threadUnref (t : ThreadO) : ResM Unit := do
   free t.name
